@@ -281,6 +281,9 @@ def _write_revisions(s: SeedDoc, objs: Dict[int, Any], extra: Dict[str, Any]) ->
     size = max(objs) + 1
     _xref_table(out, offs, size)
     t1: Dict[Any, Any] = {"Size": size, "Root": Ref(s.root)}
+    pf = s.objs.get("prev_fault")
+    if pf == "prevcycle":
+        t1["Prev"] = Raw(b"@PREVPOS2@")        # patched below (fixed width)
     out += b"trailer\n" + W.ser(t1) + b"\nstartxref\n%d\n%%%%EOF\n" % xpos1
     offs2: Dict[int, int] = {}
     for n in s.second:
@@ -294,9 +297,11 @@ def _write_revisions(s: SeedDoc, objs: Dict[int, Any], extra: Dict[str, Any]) ->
     if s.info is not None:
         t2["Info"] = Ref(s.info)
     t2.update(extra)
+    if pf == "prevself":
+        t2["Prev"] = xpos2
     t2 = _apply_over(t2, s.trailer_over)
     out += b"trailer\n" + W.ser(t2) + b"\nstartxref\n%d\n%%%%EOF\n" % xpos2
-    return bytes(out)
+    return bytes(out).replace(b"@PREVPOS2@", b"%010d" % xpos2)
 
 
 def _write_xrefstm(s: SeedDoc, objs: Dict[int, Any], extra: Dict[str, Any]) -> bytes:
@@ -498,6 +503,11 @@ def enumerate_faults(s: SeedDoc, rich: bool = False) -> List[Dict[str, Any]]:
                 faults.append(dict(base, kind="payload", how="flip", pos=pos, n=ln))
                 faults.append(dict(base, kind="payload", how="drop", pos=pos, n=ln))
                 faults.append(dict(base, kind="payload", how="junk", pos=pos, n=ln))
+    if s.layout == "revisions":
+        # Prev is a reference by byte offset: point it at its own section / into a 2-cycle
+        for how in ("prevself", "prevcycle"):
+            faults.append({"target": "trailer", "obj": None, "kind": "ref", "path": ["Prev"], "how": how,
+                           "was": "int", "container": "dict"})
     if s.layout == "xrefstm":
         for tk in ("objstm_payload", "xref_payload"):
             for how in ("truncate", "flip", "junk"):
@@ -561,6 +571,9 @@ def apply_fault(seed: SeedDoc, f: Dict[str, Any]) -> bytes:
                 return Ref(f["obj"] if f["obj"] is not None else s.root)
         raise ValueError(kind)
 
+    if kind == "ref" and f["how"] in ("prevself", "prevcycle"):
+        s.objs["prev_fault"] = f["how"]
+        return write_doc(s)
     if kind == "payload":
         if tk == "obj":
             st = s.objs[f["obj"]]
